@@ -102,7 +102,14 @@ func (g *c17gen) n(k int, l string) int { return rapid.IntRange(0, k-1).Draw(g.t
 
 func (g *c17gen) leaf() *jv.V {
 	g.markers++
-	return jv.ObjV(jv.Member{K: "const", V: jv.StrV(fmt.Sprintf("m%d", g.markers))})
+	l := jv.ObjV(jv.Member{K: "const", V: jv.StrV(fmt.Sprintf("m%d", g.markers))})
+	if g.n(4, "leafpattern") == 0 {
+		// keywords that need something prepared at Resolve time (a compiled expression) wherever
+		// the leaf sits; every marker satisfies them
+		l.Set("pattern", jv.StrV("^m[0-9]+$"))
+		l.Set("patternProperties", jv.ObjV(jv.Member{K: "^zz", V: jv.ObjV(jv.Member{K: "const", V: jv.StrV("zz-never")})}))
+	}
+	return l
 }
 
 func (g *c17gen) sub(depth int) *jv.V {
